@@ -21,6 +21,17 @@ def family(name, n):
         return "t = 0\nfor v in [0, 2, -1]:\n    if v == 0:\n        continue\n" + "".join(f"    elif v == {i}:\n        t += {i}\n        continue\n" for i in range(1, n)) + "    else:\n        break\nprint(t)\n"
     if name == "binop-chain":
         return "s = " + " + ".join("1" for _ in range(n)) + "\nprint(s)\n"
+    if name.startswith("op-chain:"):
+        # a chain of one binary operator (left-nested in the tree; ** right-nested), unparenthesised in the source
+        op = name.split(":", 1)[1]
+        operand = {"**": "1", "<<": "0", ">>": "0", "//": "1", "%": "7", "@": "M", "/": "1"}.get(op, "1")
+        pre = "class _M:\n    def __matmul__(s, o):\n        return s\nM = _M()\n" if op == "@" else ""
+        first = {"<<": "1", ">>": "4"}.get(op, operand)
+        return pre + "s = " + f" {op} ".join([first] + [operand] * (n - 1)) + "\nprint(type(s).__name__, s if isinstance(s, (int, float)) and abs(s) < 10 ** 6 else 0)\n"
+    if name == "compare-chain":
+        return "s = " + " <= ".join("1" for _ in range(n)) + "\nprint(s)\n"
+    if name == "unary-chain":
+        return "s = " + "- " * n + "1\nt = " + "not " * n + "1\nprint(s, t)\n"
     if name == "boolop-chain":
         return "s = " + " or ".join("0" for _ in range(n)) + "\nprint(s)\n"
     if name == "attribute-chain":
@@ -92,7 +103,8 @@ DEEP_CONTEXTS = {
 
 FAMILIES = ["statements", "statements-in-function", "statements-in-loop", "elif-chain", "dispatch-return", "dispatch-continue", "binop-chain", "boolop-chain", "attribute-chain",
             "call-chain", "nested-if", "nested-for", "list-display", "nested-parens-call", "statements-after-break", "statements-after-continue",
-            "statements-after-return", "lambda-chain-in-class", "lambda-chain-in-function", "genexp-chain-in-class", "huge-int-literal", "nested-def"] + ["deep-expr-in:" + c for c in DEEP_CONTEXTS]
+            "statements-after-return", "lambda-chain-in-class", "lambda-chain-in-function", "genexp-chain-in-class", "huge-int-literal", "nested-def", "compare-chain", "unary-chain"] + \
+           ["op-chain:" + op for op in ("-", "*", "/", "//", "%", "@", "**", "<<", ">>", "&", "|", "^", "and")] + ["deep-expr-in:" + c for c in DEEP_CONTEXTS]
 DEEP = {"nested-if": 90, "nested-for": 18, "nested-parens-call": 150, "genexp-chain-in-class": 150, "nested-def": 99}   # CPython's own limits for the source are near these
 
 
@@ -141,7 +153,7 @@ def known_shape(fam, n, cfg, verdict):
     if cfg[1] == "chain_call" and fam in ("statements", "statements-in-function", "statements-in-loop", "statements-after-break", "statements-after-continue",
                                         "statements-after-return") and "RecursionError" in verdict:
         return "KF-D51"     # the chain-call wrapper nests one call per consecutive statement of a block
-    if cfg[0] == "ast.unparse" and verdict == "fail:convert RecursionError" and fam in ("elif-chain", "dispatch-return", "dispatch-continue", "binop-chain", "boolop-chain", "attribute-chain", "call-chain", "lambda-chain-in-class", "lambda-chain-in-function", "genexp-chain-in-class") + tuple("deep-expr-in:" + c for c in DEEP_CONTEXTS):
+    if cfg[0] == "ast.unparse" and verdict == "fail:convert RecursionError" and fam in ("elif-chain", "dispatch-return", "dispatch-continue", "binop-chain", "boolop-chain", "attribute-chain", "call-chain", "lambda-chain-in-class", "lambda-chain-in-function", "genexp-chain-in-class", "compare-chain", "unary-chain") + tuple("deep-expr-in:" + c for c in DEEP_CONTEXTS) or (cfg[0] == "ast.unparse" and verdict == "fail:convert RecursionError" and fam.startswith("op-chain:")):
         return "KF-D53"     # the stdlib unparser is recursive: output nested deeper than the recursion limit
     if fam == "huge-int-literal" and "ValueError" in verdict:
         return "KF-D64"     # repr() of an int with more than 4 300 decimal digits is refused by the interpreter (both unparsers use it)
